@@ -1,5 +1,7 @@
 package main
 
+import "strings"
+
 // Property runners: which rules decide which property. Rule ids follow DESIGN.md §5.
 
 const staticNote = "Static analysis of /repo's current source (type-checked syntax + SSA form); no lightningstream code is executed. "
@@ -370,5 +372,40 @@ func init() {
 		ruleShadowToMain(c, "C11-R7", "C11-R7")
 		ruleSyncedIdBound(c, "C11-R7")
 		ruleRawReadRestored(c, "C11-R8")
+	})
+}
+
+func init() {
+	register("C14", propMeta{
+		Explanation: staticNote + "Decides header well-formedness structurally and by interpreting extracted terms: (R1) PutBasic writes all 24 bytes (big-endian timestamp and txn id, version 0, the flags argument, reserved and extension count 0); (R2) layout constants equal the documented layout; flag helper meanings; (R3) every value Lightning Stream assembles is: buffer reset to 24 bytes → PutBasic → optional padding block with count 1 → the application value last; (R4) only synced flags are written for all raw incoming flags, a deleted entry is written without value, the txn id is the iterator's; (R5) the iterator's txn id is txn.ID() of the writing transaction at both construction sites; (R6) the extracted Parse and Skip tables, interpreted on byte strings around every length boundary and extension counts up to 65535, reject exactly the too-short / wrong-version values, return what follows all extension blocks, never index out of range, and agree with each other.",
+		NotDecided:  "Values written by the application itself; Header.Bytes()/doBytes (not used by the syncer's write path).",
+		Assumptions: []string{"encoding/binary big-endian semantics"},
+	}, func(c *Check) {
+		c.Rule("C14-R1", "PUTBASIC-COVERAGE")
+		c.Rule("C14-R2", "LAYOUT constants and flag helpers")
+		c.Rule("C14-R3", "ASSEMBLY")
+		c.Rule("C14-R4", "FLAGS-MASKED, deleted ⇒ no value, iterator's txn id")
+		c.Rule("C14-R5", "TXNID provenance")
+		c.Rule("C14-R6", "PARSE/SKIP tables")
+		rulePutBasic(c, "C14-R1")
+		ruleHeaderLayout(c, "C14-R2")
+		for _, fn := range []string{"syncer.(*NativeIterator).Merge", "syncer.(*NativeIterator).Clean"} {
+			t := BuildMergeTable(c, fn)
+			if t == nil {
+				continue
+			}
+			ruleAssembly(c, "C14-R3", t)
+			if strings.HasSuffix(fn, "Merge") {
+				u := buildUniverse(t, c.Tier == "thorough")
+				if ruleTableTotal(c, "C14-R4", t, u, remoteCfgs) {
+					ruleFlagsMasked(c, "C14-R4", t, u, remoteCfgs)
+					ruleDeletedNoValue(c, "C14-R4", t)
+				}
+			}
+		}
+		ruleLoadBody(c, "C14-R5", "C14-R5", "C14-R5", "C14-R5", "C14-R5")
+		ruleMainToShadow(c, "C14-R5", "C14-R5", "C14-R5")
+		ruleReadDBILoop(c, "C14-R4", false)
+		ruleParseTable(c, "C14-R6")
 	})
 }
